@@ -6,6 +6,7 @@
                                     (testbit (cneg c) v = true -> testbit m v = false) *)
 From Coq Require Import List NArith Bool Sorting.Sorted.
 From V Require Proofs.ExprsTie2.   (* expressions of cube.rs / ecube.rs / bdd.rs / canonization.rs, regenerated from the Rust source, equal the model's *)
+From V Require Proofs.ExprsTie4.   (* the bodies of sop.rs / esop.rs / soes.rs (and the remaining functions of cube.rs / ecube.rs), regenerated from the Rust source, equal the model's *)
 From V Require Import Checkers.Check Proofs.CheckSoundCube.   (* the extracted checkers and their soundness proofs, pinned at the end of this file *)
 From V Require Import Base.Res Model.Kernels Model.TwoLevel Spec.Bfun Proofs.CubeProofs.
 Import ListNotations.
